@@ -36,6 +36,10 @@ func (s *IndexStorage) SetIndex(idx *index.Index) (err error) {
 			// gets none, whatever idx still carries (e.g. the cached
 			// tree of an index that git wrote).
 			cp.Cache, cp.ResolveUndo, cp.EndOfIndexEntry = nil, nil, nil
+			for _, e := range cp.Entries {
+				e.CreatedAt = onDiskTime(e.CreatedAt)
+				e.ModifiedAt = onDiskTime(e.ModifiedAt)
+			}
 			cp.ModTime = fi.ModTime()
 			s.cache.Set(cp, fi.ModTime(), fi.Size())
 		} else {
@@ -141,6 +145,16 @@ func (s *IndexStorage) clearCache() {
 	if s.cache != nil {
 		s.cache.Clear()
 	}
+}
+
+// onDiskTime maps a time that the index file stores as 0/0 seconds and
+// nanoseconds (the Unix epoch) to the zero Time, which is what the decoder
+// returns for it.
+func onDiskTime(t time.Time) time.Time {
+	if !t.IsZero() && t.Unix() == 0 && t.Nanosecond() == 0 {
+		return time.Time{}
+	}
+	return t
 }
 
 // copyIndex returns a deep copy of idx: its own Entries slice, its own
